@@ -12,6 +12,11 @@ package mint
 // No mint quote shares the payment hash of an MPP melt quote (MPP melts are
 // never internal): established by RequestMeltQuote, preserved by A-LN3.
 //@ macro mppinv() = (forall q Str, x Str :: db.melt[q] && db.meltrow[q].IsMpp && db.mq[x] ==> db.mqrow[x].PaymentRequest != db.meltrow[q].InvoiceRequest) && (forall x Str, y Str :: db.mq[x] && db.mq[y] && db.mqrow[x].PaymentHash == db.mqrow[y].PaymentHash ==> x == y) && (forall x Str :: db.mq[x] ==> decode.hash(db.mqrow[x].PaymentRequest) == db.mqrow[x].PaymentHash) && (forall q Str :: db.melt[q] ==> decode.hash(db.meltrow[q].InvoiceRequest) == db.meltrow[q].PaymentHash)
+//@ macro sigall(sec) = (exists t :: 0 <= t && t < len(sec.Data.Tags) && len(sec.Data.Tags[t]) == 2 && sec.Data.Tags[t][0] == "sigflag" && sec.Data.Tags[t][1] == "SIG_ALL")
+//@ macro nsigsof(sec) = (tags.parse(sec.Data.Tags).NSigs > 0 ? tags.parse(sec.Data.Tags).NSigs : 1)
+//@ macro samecond(first, sec) = nut11.keysok(sec) && tags.ok(sec.Data.Tags) && deepeq(box(nut11.keysof(first), slice(ptr(btcec.PublicKey))), box(nut11.keysof(sec), slice(ptr(btcec.PublicKey)))) && nsigsof(first) == nsigsof(sec)
+
+//@ macro anysigall(ps) = (exists i :: 0 <= i && i < len(ps) && nut10.ok(ps[i].Secret) && sigall(nut10.parse(ps[i].Secret)))
 //@ macro minv(m) = m.db != nil && m.lightningClient != nil && m.activeKeyset != nil && m.keysets != nil && m.logger != nil && m.publisher != nil
 
 //@ func (*Mint).TransactionFees
@@ -36,7 +41,8 @@ package mint
 //@   ensures @unspent [C01] err == nil ==> (forall i :: 0 <= i && i < len(proofs) ==> !db.spent[Yof(proofs[i].Secret)] && !db.pending[Yof(proofs[i].Secret)])
 //@   ensures @genuine [C04,C12,C13,C09] err == nil ==> (forall i :: 0 <= i && i < len(proofs) ==> okproof(m, proofs[i]))
 //@   ensures @distinctsecrets [C01] err == nil ==> (forall i, j :: 0 <= i && i < j && j < len(proofs) ==> proofs[i].Secret != proofs[j].Secret)
-//@   loop range(proofs) invariant 0 <= i && i <= len(proofs) && (forall j :: 0 <= j && j < i ==> okproof(m, proofs[j]))
+//@   loop range(proofs) invariant 0 <= i && i <= len(proofs) && hvs.fails == old(hvs.fails) && hvs.calls >= old(hvs.calls) && (forall j :: 0 <= j && j < i ==> okproof(m, proofs[j]))
+//@   ensures @nofails [C12,C13] err == nil ==> hvs.fails == old(hvs.fails) && hvs.calls >= old(hvs.calls)
 
 //@ func (*Mint).signBlindedMessages
 //@   tags C02 C09 C10
@@ -62,6 +68,8 @@ package mint
 //@   ensures @monotone [C01] forall y Str :: old(db.spent)[y] ==> db.spent[y]
 //@   ensures @sigsaved [C15] err == nil ==> (forall i :: 0 <= i && i < len(blindedMessages) ==> db.sig[blindedMessages[i].B_])
 //@   ensures @atomic [C06] err != nil && db.faults == old(db.faults) ==> db.spent == old(db.spent) && db.sig == old(db.sig) && db.pending == old(db.pending)
+//@   ensures @sigall [C12,C13] err == nil && anysigall(proofs) ==> hvs.fails == old(hvs.fails) && hvs.calls >= old(hvs.calls) + len(blindedMessages) && (forall j :: 0 <= j && j < len(proofs) ==> nut10.ok(proofs[j].Secret) && sigall(nut10.parse(proofs[j].Secret)) && samecond(nut10.parse(proofs[0].Secret), nut10.parse(proofs[j].Secret)))
+//@   ensures @genuine [C04,C12,C13] err == nil ==> (forall i :: 0 <= i && i < len(proofs) ==> okproof(m, proofs[i]))
 //@   ensures @len [C02,C15] err == nil ==> len(result) == len(blindedMessages)
 
 //@ func (*Mint).GetMintQuoteState
@@ -148,6 +156,8 @@ package mint
 //@   calls (*Mint).settleQuotesInternally asserts @covers [C02,C03] meltQuote.Amount >= mintQuote.Amount
 //@   calls (lightning.Client).SendPayment asserts @lockedfirst [C01,C05,C07] (forall i :: 0 <= i && i < len(meltTokensRequest.Inputs) ==> db.pending[Yof(meltTokensRequest.Inputs[i].Secret)]) && db.meltrow[meltTokensRequest.Quote].State == nut05.Pending
 //@   calls (lightning.Client).PayPartialAmount asserts @lockedfirst [C01,C05,C07] (forall i :: 0 <= i && i < len(meltTokensRequest.Inputs) ==> db.pending[Yof(meltTokensRequest.Inputs[i].Secret)]) && db.meltrow[meltTokensRequest.Quote].State == nut05.Pending
+//@   ensures @nosigall [C12] err == nil ==> !anysigall(meltTokensRequest.Inputs)
+//@   ensures @genuine [C04,C12,C13] err == nil ==> (forall i :: 0 <= i && i < len(meltTokensRequest.Inputs) ==> okproof(m, meltTokensRequest.Inputs[i]))
 //@   ensures @states [C05] err == nil ==> result.State == nut05.Paid || result.State == nut05.Unpaid || result.State == nut05.Pending
 //@   ensures @stored [C05] err == nil ==> db.melt[meltTokensRequest.Quote] && db.meltrow[meltTokensRequest.Quote].State == result.State && db.meltrow[meltTokensRequest.Quote].Preimage == result.Preimage
 //@   ensures @paid [C02,C05] err == nil && result.State == nut05.Paid && ln.npay == old(ln.npay) + 1 ==> (ln.payerr == nil && ln.pay.PaymentStatus == lightning.Succeeded && result.Preimage == ln.pay.Preimage) || (payfailed() && ln.nst == old(ln.nst) + 1 && ln.sterr == nil && ln.st.PaymentStatus == lightning.Succeeded && result.Preimage == ln.st.Preimage)
@@ -279,10 +289,6 @@ package mint
 // SIG_ALL (NUT-11/14): every input carries SIG_ALL with the same key list and
 // the same threshold, and every output is signed (and, for HTLC, carries the
 // preimage). Signature counting is HasValidSignatures (ghost counters hvs.*).
-//@ macro sigall(sec) = (exists t :: 0 <= t && t < len(sec.Data.Tags) && len(sec.Data.Tags[t]) == 2 && sec.Data.Tags[t][0] == "sigflag" && sec.Data.Tags[t][1] == "SIG_ALL")
-//@ macro nsigsof(sec) = (tags.parse(sec.Data.Tags).NSigs > 0 ? tags.parse(sec.Data.Tags).NSigs : 1)
-//@ macro samecond(first, sec) = nut11.keysok(sec) && tags.ok(sec.Data.Tags) && deepeq(box(nut11.keysof(first), slice(ptr(btcec.PublicKey))), box(nut11.keysof(sec), slice(ptr(btcec.PublicKey)))) && nsigsof(first) == nsigsof(sec)
-
 //@ func verifyBlindedMessages
 //@   tags C12 C13
 //@   safety C06 C12
